@@ -7,7 +7,8 @@ proof:          lean/BMV/Props/C16.lean about the independent validator `WfBM` (
                 error), neededBits boundary lemmas.
 tie:            every machine emitted by a real front-end in this run is dumped by harness/cmd/c16
                 (canonical text) and fed to the compiled `WfBM` (oracle-c16): basm on the C05
-                generator (incl. sources with an unfit operand, which must be REJECTED), basm on
+                generator (incl. sources with an unfit operand, which must be REJECTED; plus sources outside
+                the C05 model: ROM+RAM code in hy/vn mode, ROM/RAM data sections around 2^k cells), basm on
                 every *.basm under the repository (standalone; the reason is listed when it does
                 not assemble), neuralbond -> basm and bmqsim -> basm on small inputs.  The exact
                 structural agreement of the model assembler with the real one is C05's tie.
